@@ -112,3 +112,27 @@ reg('C04', module='c04', level='exploration',
                           'normalize_checks': 5000,
                           'array_value_get_checks': 50000,
                           'table_entries_walked': 100000}})
+
+reg('C05', module='c05', level='exploration',
+    technique=('runtime monitoring: FNode.substitute / MGSubstituter / '
+               'MSSubstituter results judged by (a) the substitution lemma '
+               'under the reference evaluator, (b) an independent recursive '
+               'definition of MGS/MSS, (c) lambda-interpretation of function '
+               'symbols; icontract type post-condition'),
+    rule=('random formulas with nested/shadowing quantifiers and shared '
+          'sub-DAGs x symbol maps (identity, swap, overlapping), term-key '
+          'maps (key inside key, key equal to a replacement, x and not x), '
+          'function interpretations with nested applications; 3 strategies; '
+          'distinct = (formula key, index)'),
+    level_text=('each substitution result is compared semantically on 16-20 '
+                'interpretations (capture cases decided by an own binder '
+                'analysis are skipped and counted) or structurally with the '
+                'reference MGS/MSS result. Held on the executions observed.'),
+    level_note='trusts vf/refeval.py, vf/c05.refsubst and vf/c04.norm_node',
+    assumptions=['maps are type-correct; keys that pySMT requires to stay '
+                 'literal (array-value indexes, Pow exponents) are not '
+                 'replaced'],
+    require={'quick': {'lemma_compared': 1500, 'exact_compared': 800,
+                       'interp_compared': 500, 'contract_evals': 3000},
+             'thorough': {'lemma_compared': 20000, 'exact_compared': 10000,
+                          'interp_compared': 5000, 'contract_evals': 40000}})
